@@ -1354,6 +1354,19 @@ class WriteTool(BaseTool):
 
                 corrections.extend(self._track_corrections(parse_input, parse_input, tokenize_repairs))
 
+                # I4: the strict parser also coalesces multi-word bare values (KEY::hello world is
+                # written back as KEY::"hello world"); parse() does not expose its warnings, so
+                # collect the parser-level receipts here - lexer repairs are already tracked above.
+                try:
+                    _, strict_warnings = parse_with_warnings(parse_input)
+                    corrections.extend(
+                        self._map_parse_warnings_to_corrections(
+                            [w for w in strict_warnings if w.get("type") == "lenient_parse"]
+                        )
+                    )
+                except (LexerError, ParserError):
+                    pass
+
             # Apply META mutations (if any)
             self._apply_mutations(doc, mutations)
 
